@@ -94,8 +94,8 @@ def entries(seed):
     sig = r.standard_normal((2, 64))
     E_ = {}
 
-    def reg(name, fn, *arrays, seeded=False):
-        E_[name] = (fn, arrays, seeded)
+    def reg(name, fn, *arrays, seeded=False, state=None):
+        E_[name] = (fn, arrays, seeded, state)
 
     # ---- mixture trainers and models
     def mk_fit(tr_factory, method, integ=False, extra=None, with_mask=False):
@@ -139,7 +139,17 @@ def entries(seed):
     }
     for nm, m in models.items():
         data = y if nm in ('CACGMM', 'CWMM', 'CBMM') else yr
-        reg(f'{nm}.predict', (lambda m: lambda args: m.predict(args[0]))(m), data)
+        reg(f'{nm}.predict', (lambda m: lambda args: m.predict(args[0]))(m), data, state=m)
+    # models with tied / unsorted eigenvalues, reused across calls
+    Ub = np.stack([np.linalg.qr(A.cnormal(r, (D, D)))[0] for _ in range(F)])
+    for tag, lam_b in (('tied_ascending', [-5.0, -5.0, 0.0]), ('descending', [0.0, -2.0, -5.0]),
+                       ('tied_unsorted', [0.0, -3.0, -3.0])):
+        bm = d.ComplexBingham(Ub, np.array([lam_b] * F))
+        reg(f'ComplexBingham[{tag}].log_pdf', (lambda bm: lambda args: bm.log_pdf(args[0]))(bm), z if False else
+            y / np.linalg.norm(y, axis=-1, keepdims=True), state=bm)
+        cb = d.CBMM(weight=np.full((F, K, 1), 0.5),
+                    complex_bingham=d.ComplexBingham(np.stack([Ub] * K, 1), np.array([[lam_b] * K] * F)))
+        reg(f'CBMM[{tag}].predict', (lambda cb: lambda args: cb.predict(args[0]))(cb), y, state=cb)
     reg('CACGMM.predict[mask]', lambda args: models['CACGMM'].predict(args[0], source_activity_mask=args[1]), y, msk)
     reg('CACGMM.log_likelihood', lambda args: models['CACGMM'].log_likelihood(args[0]), y)
     gm = d.GCACGMMTrainer().fit(y, emb, initialization=init, iterations=2)
@@ -284,9 +294,10 @@ def public_names():
 def run_purity(key):
     name, layout, seed = key['name'], key['layout'], key['seed']
     table = entries(seed)
-    fn, arrays, seeded = table[name]
+    fn, arrays, seeded, state = table[name]
     args = [_layout(a, layout) for a in arrays]
     snaps = [a.copy() for a in args]
+    state0 = None if state is None else _digest(state)
     results = []
     for rep in range(2):
         if seeded:
@@ -302,6 +313,8 @@ def run_purity(key):
             if not (a.shape == s.shape and a.tobytes() == s.tobytes()):
                 return viol(f'{name} modified its argument #{i} ({layout} layout, shape {s.shape})')
         results.append(_digest(res))
+        if state is not None and _digest(state) != state0:
+            return viol(f'{name}: the call changed the parameters stored in the model object')
     if results[0] != results[1]:
         return viol(f'{name}: repeating the call (same arguments{", same NumPy seed" if seeded else ""}) gives a '
                     f'different result')
